@@ -21,7 +21,11 @@ ASSUMPTIONS = ["numpy linear algebra", "reference gate table and Pauli applicati
                "variance oracle = the documented no-correlation propagation formula sum |c_k|^2 (1-<P_k>^2)",
                "finite-shot claims are tested with Bernstein bands at false-alarm probability 1e-11 per comparison, numpy seed pinned",
                "only cirq and sympy backends are installed; the generic routes are reached through a user-defined Backend subclass "
-               "delegating simulation to cirq", "sympy receives the initial state as an msq_first column array (its documented format)"]
+               "delegating simulation to cirq", "sympy receives the initial state as an msq_first column array (its documented format)",
+               "finite shots + desired_meas_result: the number of post-selected samples may be anything between the 1e-11 quantile of "
+               "Binomial(N, p_branch) and N (filtering N shots or drawing N successes both sample the same distribution); the standard "
+               "error oracle is the documented sqrt(variance / n_shots)",
+               "operators acting beyond the circuit width must be refused with the ValueError of the backend's own width check"]
 SHARDS = {"quick": 4, "thorough": 16}
 
 CTYPES = ["float", "complex", "int", "np.float64", "np.complex128", "mixed", "float"]
